@@ -221,7 +221,7 @@ def run_sampler(acc, arch, only=None):
                 pv = call(rbm.prob_v_given_ha, Hs, As, out=buf(len(HA), nv)).clone().numpy()
                 forms[fill] = (ph, pa, pv)
             for fill in (1.0, 0.0):
-                if any(not np.array_equal(x, y) for x, y in zip(forms[fill], forms[None])):
+                if any(not close(x, y, 1e-12, at=1e-14) for x, y in zip(forms[fill], forms[None])):  # (not bit-for-bit: an out= path may legitimately round differently)
                     acc.viol("sampler:conditional-depends-on-previous-content-of-out-buffer", case, observed=[x.tolist() for x in forms[fill]], expected=[x.tolist() for x in forms[None]],
                              detail=dict(prefill=fill))
                     return
